@@ -21,6 +21,8 @@ def build(lines, quick, rnd):
         items.append(('intel', l['intel'], l))
         if 'att' in l:
             items.append(('att', l['att'], l))
+        if 'intel_split' in l and (not quick or rnd.random() < 0.5):
+            items.append(('intel', l['intel_split'], l))        # the same request with the displacement as constant arithmetic
     return items
 
 
